@@ -28,6 +28,7 @@ type Env struct {
 	useEntryParams bool
 	inOld bool
 	monitorAssume bool // evaluating a monitor invariant that is being ASSUMED at Lock
+	wantArrayPlace bool // the identifier being evaluated is the base of an index expression
 	loopFr *Frame // frame whose loop-entry snapshots atloop() refers to (survives predicate expansion)
 }
 
@@ -438,9 +439,9 @@ func (ev *Env) localByName(fr *Frame, name string) (Value, bool) {
 	if !ok {
 		return fc.zeroValue(a.Type().(*types.Pointer).Elem()), true
 	}
-	if pl, isP := pv.(PlaceV); isP && pl.Kind == "obj" && len(pl.Path) == 0 {
+	if pl, isP := pv.(PlaceV); isP && pl.Kind == "obj" && len(pl.Path) == 0 && ev.wantArrayPlace {
 		if _, isArr := pl.Typ.Underlying().(*types.Array); isArr {
-			// an array variable is indexed in place (its elements live in the heap under the variable's object)
+			// an array variable that is being indexed: in place (its elements live in the heap under the variable's object)
 			return pl, true
 		}
 	}
@@ -864,7 +865,10 @@ func (ev *Env) idx(v Value) string {
 
 func (ev *Env) evalIndex(x *EIndex) Value {
 	fc := ev.fc
+	_, isIdent := x.X.(*EIdent)
+	ev.wantArrayPlace = isIdent
 	base := ev.eval(x.X)
+	ev.wantArrayPlace = false
 	iv := ev.eval(x.I)
 	switch b := base.(type) {
 	case SliceV:
@@ -1241,7 +1245,7 @@ func (ev *Env) evalCall(x *ECall) Value {
 			return Scalar{sv.Base, "Int", nil}
 		}
 		ev.fail("base() of non-slice")
-	case "prefixof", "suffixof", "contains", "indexof", "substr":
+	case "prefixof", "suffixof", "contains", "indexof", "substr", "chr":
 		if fc.strmode != "smtlib" {
 			ev.fail("%s needs `strings smtlib`", name)
 		}
@@ -1665,6 +1669,9 @@ func (ev *Env) evalStrFn(name string, x *ECall, arg func(int) Value) Value {
 			from = ev.idx(arg(2))
 		}
 		return Scalar{"(str.indexof " + a.T + " " + b.T + " " + from + ")", "Int", types.Typ[types.Int]}
+	case "chr":
+		// the one-character string with this byte value
+		return Scalar{"(str.from_code " + ev.idx(arg(0)) + ")", "String", types.Typ[types.String]}
 	case "substr":
 		a := ev.asScalar(arg(0))
 		return Scalar{"(str.substr " + a.T + " " + ev.idx(arg(1)) + " " + ev.idx(arg(2)) + ")", "String", a.Typ}
